@@ -333,6 +333,64 @@ theorem C05_retry_transparent (env : Env) (f t : Nat) (mism : Nat → Nat → Bo
 /-- the real constant: `MaxRetryCountBlockHashMismatch = 5` retries after the first attempt; the second attempt succeeding -/
 example : getEventsRetry exEnv0 1 10 (fun a b => a == 0 && b == 4) 5 0 = some (eventsIn exEnv0 1 10) := by decide
 
+theorem group_same_block (b : Nat) : ∀ (ids : List Nat) (rest : List (Nat × Nat)) (acc : List (Nat × List Nat)) (evs : List Nat),
+    groupLogs (ids.map (fun id => (b, id)) ++ rest) (acc ++ [(b, evs)]) = groupLogs rest (acc ++ [(b, evs ++ ids)]) := by
+  intro ids
+  induction ids with
+  | nil => intro rest acc evs; simp
+  | cons id ids ih =>
+    intro rest acc evs
+    simp only [List.map_cons, List.cons_append]
+    conv => lhs; unfold groupLogs
+    simp only [List.getLast?_append, List.getLast?_singleton, Option.some_or, Nat.lt_irrefl, if_false,
+      List.dropLast_concat]
+    rw [ih]
+    simp
+
+theorem group_blocks (chain : Nat → List Nat) : ∀ (bs : List Nat) (acc : List (Nat × List Nat)),
+    bs.Pairwise (· < ·) → (∀ a ∈ acc, ∀ b ∈ bs, a.1 < b) →
+    groupLogs (bs.flatMap (fun b => (chain b).map (fun id => (b, id)))) acc =
+      acc ++ bs.filterMap (fun b => if chain b = [] then none else some (b, chain b)) := by
+  intro bs
+  induction bs with
+  | nil => intro acc _ _; simp [groupLogs]
+  | cons b bs ih =>
+    intro acc hs hlt
+    have hs' := List.pairwise_cons.mp hs
+    simp only [List.flatMap_cons, List.filterMap_cons]
+    cases hc : chain b with
+    | nil =>
+      simp only [List.map_nil, List.nil_append, if_true]
+      exact ih acc hs'.2 (fun a ha x hx => hlt a ha x (List.mem_cons_of_mem _ hx))
+    | cons id ids =>
+      simp only [List.map_cons, List.cons_append, reduceCtorEq, if_false]
+      -- the first log of the block opens it
+      have hopen : groupLogs ((b, id) :: (ids.map (fun id => (b, id)) ++ bs.flatMap (fun b => (chain b).map (fun id => (b, id))))) acc =
+          groupLogs (ids.map (fun id => (b, id)) ++ bs.flatMap (fun b => (chain b).map (fun id => (b, id)))) (acc ++ [(b, [id])]) := by
+        conv => lhs; unfold groupLogs
+        cases hl : acc.getLast? with
+        | none => rfl
+        | some last =>
+          simp only
+          have : last.1 < b := hlt last (List.mem_of_getLast? hl) b (by simp)
+          rw [if_pos this]
+      rw [hopen, group_same_block, ih _ hs'.2]
+      · simp
+      · intro a ha x hx
+        rcases List.mem_append.mp ha with h | h
+        · exact hlt a h x (List.mem_cons_of_mem _ hx)
+        · simp at h; subst h; exact hs'.1 x hx
+
+/-- **the grouping loop yields exactly the event blocks of the range**: every block that has watched logs, once, in
+    ascending order, each with all of its own logs in log order and none of another block's -/
+theorem C05_grouping (env : Env) (f t : Nat) : groupLogs (logsIn env f t) [] = eventsIn env f t := by
+  unfold logsIn eventsIn
+  rw [group_blocks env.chain _ [] (List.pairwise_lt_range' (s := f) (n := t + 1 - f)) (by simp)]
+  simp
+
+example : groupLogs (logsIn exEnv0 1 10) [] = [(3, [31, 32]), (4, [41]), (9, [91])] := by decide
+
+
 /-- non-vacuity: a chain with logs in blocks 3, 4 and 9, chunk 2, tip jumping 5 → 12 → 20, finalized lagging;
     the inputs are admissible and the loop hands over 3, 4, 9 and the marker 12 -/
 def exEnv : Env := { chain := fun b => if b = 3 then [31, 32] else if b = 4 then [41] else if b = 9 then [91] else [], chunk := 2, finalizedTag := true }
